@@ -85,3 +85,9 @@ impl fmt::Debug for GoAway {
         builder.finish()
     }
 }
+
+#[cfg(feature = "verif")]
+#[allow(missing_docs, dead_code, unused_imports)]
+pub(crate) mod verif_h {
+    include!(concat!(env!("H2_VERIF_DIR"), "/harness/frame/go_away.rs"));
+}
